@@ -38,3 +38,25 @@ impl PathBuf {
     #[verifier::external_body]
     pub fn join<A: JoinArg>(&self, name: A) -> (r: PathBuf) ensures r == joined(*self, name.text()) { unimplemented!() }
 }
+
+// Two Strings with the same content are the same value (Eq/Hash of String are by content) -- ASSUMED;
+// with it `!=` on Strings below means "different text".
+pub broadcast axiom fn axiom_string_extensional(a: String, b: String)
+    ensures (#[trigger] a@ == #[trigger] b@) ==> a == b;
+
+// DumpRegistry::make_path: ASSUMED with the contract PROVED for the block that records a suffixed
+// name (record_suffixed below; the un-suffixed branch has the same shape) -- see paper_steps: the
+// loop that searches a free name cannot be verified.
+impl DumpRegistry {
+    #[verifier::external_body]
+    fn make_path(&mut self, uri: &Https) -> (res: PathBuf)
+        requires old(self).wf(), !old(self).rrdp_uris@.contains_key(*uri),
+        ensures
+            final(self).wf(), final(self).base_dir == old(self).base_dir,
+            exists|name: String| !old(self).rrdp_dirs@.contains(name)
+                && #[trigger] final(self).rrdp_uris@ == old(self).rrdp_uris@.insert(*uri, name)
+                && final(self).rrdp_dirs@ == old(self).rrdp_dirs@.insert(name)
+                && res == joined(old(self).base_dir, name@),
+    { unimplemented!() }
+}
+
